@@ -85,14 +85,15 @@ def run(chk, ctx):
     # the period is the increment of the sweep loop
     sweep, readl = None, None
     for n in ast.walk(fn):
-        if isinstance(n, ast.While) and id(n) not in live.dead_nodes:
+        if isinstance(n, (ast.While, ast.For)) and id(n) not in live.dead_nodes:
             ops = [it for it in b.items if it.kind == "op" and it.live and any(x is it.node for x in ast.walk(n))]
             types = {o.type for o in ops}
             if "Write_disk" in types:
                 sweep = (n, ops)
             elif "Read_disk" in types:
                 readl = (n, ops)
-    if sweep is None or readl is None:
+    if sweep is None or readl is None or isinstance(sweep[0], ast.For):
+        sweep = readl = None
         ff = for_form(chk, g, live, fn, b, cons0, lparam)
         if not ff:
             chk.decide("C19.SWEEP", cons0 + "#loops", None, "sweep / read loops not found", rel=REL, node=fn)
@@ -160,9 +161,39 @@ def run(chk, ctx):
                    (False if i0 is not None and i0.is_const() else None), f"{var} starts at {ast.unparse(inits[0].value) if inits else '?'}",
                    rel=REL, node=inits[0] if inits else fn, nontrivial=False)
     decs = [s for s in readl[0].body if isinstance(s, ast.AugAssign) and isinstance(s.op, ast.Sub) and isinstance(s.target, ast.Name)
-            and s.target.id == var]
+            and s.target.id == var] if isinstance(readl[0], ast.While) else []
     rops = [o for o in readl[1] if o.type == "Read_disk"]
-    if len(decs) != 1 or not rops:
+    rvar = var
+    if isinstance(readl[0], ast.For):
+        # read loop over the positions themselves:  for p in range(var - step, -1, -step)
+        lp = readl[0]
+        it_ = lp.iter
+        rng = [lin_of(a) for a in it_.args] if isinstance(it_, ast.Call) and getattr(it_.func, "id", None) == "range" \
+            and len(it_.args) == 3 else None
+        if rng is None or any(x is None for x in rng) or not isinstance(lp.target, ast.Name) or not rops or step is None:
+            chk.decide("C19.SWEEP", cons0 + "#read-body", None, "read loop not recognised", rel=REL, node=lp)
+        else:
+            rvar = lp.target.id
+            A, B, C = rng
+            d = C + step
+            chk.decide("C19.SWEEP", cons0 + "#read/step", True if (d.is_const() and d.c == 0) else (False if d.is_const() else None),
+                       f"read loop walks back by `{ast.unparse(it_.args[2])}`, the sweep advanced by `{ast.unparse(incs[0].value)}`",
+                       rel=REL, node=lp)
+            d0 = A - (Lin.sym(var) - step)
+            chk.decide("C19.SWEEP", cons0 + "#read/start", True if (d0.is_const() and d0.c == 0) else (False if d0.is_const() else None),
+                       f"read loop starts at `{ast.unparse(it_.args[0])}`: one period before the end of the sweep (off by {d0})",
+                       rel=REL, node=lp)
+            # stops after position 0: range end -1 (the positions are multiples of the period, counted down from the sweep's end)
+            gok = True if (B.is_const() and B.c == -1) else (False if B.is_const() else None)
+            chk.decide("C19.SWEEP", cons0 + "#read/guard", gok,
+                       f"read loop runs down to `{ast.unparse(it_.args[1])}` exclusive (required: position 0 is read)", rel=REL, node=lp)
+            chk.decide("C19.SWEEP", cons0 + "#read/once", True if len(rops) == 1 else False,
+                       f"{len(rops)} Read_disk per iteration", rel=REL, node=lp, nontrivial=False)
+            _, ridx = rops[0].level_step()
+            dd = diff_const(ridx, Lin.sym(rvar))
+            chk.decide("C19.SWEEP", cons0 + "#read/index", True if dd == 0 else (False if dd is not None else None),
+                       f"Read_disk({ast.unparse(rops[0].idx)}) at the loop position", rel=REL, node=rops[0].node)
+    elif len(decs) != 1 or not rops:
         chk.decide("C19.SWEEP", cons0 + "#read-body", None, "read loop not recognised", rel=REL, node=readl[0])
     else:
         back = lin_of(decs[0].value)
@@ -186,7 +217,7 @@ def run(chk, ctx):
             dd2 = gl - gr - Lin.sym(var)
             gok = True if (dd2.is_const() and dd2.c == 0) else (False if dd2.is_const() else None)
         chk.decide("C19.SWEEP", cons0 + "#read/guard", gok, f"read loop runs while `{ast.unparse(t)}`", rel=REL, node=readl[0])
-    only_and_form(chk, g, fn, cons0, sweep, readl, step, var, repo)
+    only_and_form(chk, g, fn, cons0, sweep, readl, step, rvar, repo)
 
 
 def for_form(chk, g, live, fn, b, cons0, lparam):
@@ -332,12 +363,14 @@ def form(chk, repo):
             a0 = pkey(pb.poly(t.left.args[0]))
             want0 = pkey(padd(patom(cm), pconst(1)))
             counter = t.left.args[1].id if isinstance(t.left.args[1], ast.Name) else None
-            rhs = pb.poly(t.comparators[0])
+            rhs = pb.poly(subst_defs(t.comparators[0], single_defs(fn)))
             # (wd + rd) / uf  as polynomial with the atom 1/(uf)
             uf, rd, wd = params[1], params[2], params[3]
             want_rhs = pb.poly(ast.parse(f"({wd} + {rd}) / {uf}", mode="eval").body)
             ok = a0 == want0 and isinstance(t.ops[0], ast.LtE) and pkey(rhs) == pkey(want_rhs) and counter is not None
-            chk.decide("C19.FORM", cons + "#threshold", True if ok else False,
+            # a definite mismatch needs a right-hand side the rule understands completely (the cost parameters only)
+            known = {n.id for n in ast.walk(subst_defs(t.comparators[0], single_defs(fn))) if isinstance(n, ast.Name)} <= set(params)
+            chk.decide("C19.FORM", cons + "#threshold", True if ok else (False if known else None),
                        f"loop: while {ast.unparse(t)}; descriptor: while beta({cm} + 1, t) <= ({wd} + {rd}) / {uf}", rel=REL, node=w)
             inc = [s for s in w.body if isinstance(s, ast.AugAssign) and isinstance(s.target, ast.Name) and s.target.id == counter]
             one = len(inc) == 1 and isinstance(inc[0].op, ast.Add) and isinstance(inc[0].value, ast.Constant) and inc[0].value.value == 1
